@@ -114,7 +114,7 @@ func walk(n ast.Node, fn func(ast.Node) ast.Node) ast.Node {
 						continue
 					}
 					r := walk(child, fn)
-					if r != child {
+					if r != child && reflect.TypeOf(r).AssignableTo(f.Type()) {
 						f.Set(reflect.ValueOf(r))
 					}
 				}
@@ -129,7 +129,7 @@ func walk(n ast.Node, fn func(ast.Node) ast.Node) ast.Node {
 					}
 					if child, ok := el.Interface().(ast.Node); ok {
 						r := walk(child, fn)
-						if r != child {
+						if r != child && reflect.TypeOf(r).AssignableTo(el.Type()) {
 							el.Set(reflect.ValueOf(r))
 						}
 					}
@@ -140,20 +140,135 @@ func walk(n ast.Node, fn func(ast.Node) ast.Node) ast.Node {
 	return fn(n)
 }
 
+// pkgVars: package-level variables of the uhppote package (name -> id), excluding sync objects.
+var pkgVars = map[string]string{}
+
+func collectPkgVars(files []*ast.File) {
+	for _, f := range files {
+		for _, d := range f.Decls {
+			gd, ok := d.(*ast.GenDecl)
+			if !ok || gd.Tok != token.VAR {
+				continue
+			}
+			for _, sp := range gd.Specs {
+				vs := sp.(*ast.ValueSpec)
+				if se, ok := vs.Type.(*ast.SelectorExpr); ok {
+					if id, ok := se.X.(*ast.Ident); ok && (id.Name == "sync" || id.Name == "atomic") {
+						continue // synchronisation objects are accessed through their methods
+					}
+				}
+				for _, n := range vs.Names {
+					if n.Name != "_" {
+						p := fset.Position(n.Pos())
+						pkgVars[n.Name] = fmt.Sprintf("%s@%s", n.Name, filepath.Base(p.Filename))
+					}
+				}
+			}
+		}
+	}
+}
+
+// pkgVarOf reports whether id refers to a package-level variable (declared in this or another
+// file of the package) and is not shadowed by a local declaration.
+func pkgVarOf(id *ast.Ident) (string, bool) {
+	sid, ok := pkgVars[id.Name]
+	if !ok {
+		return "", false
+	}
+	if id.Obj == nil {
+		return sid, true // unresolved in this file: package scope (another file)
+	}
+	if vsp, ok := id.Obj.Decl.(*ast.ValueSpec); ok && id.Obj.Kind == ast.Var {
+		p := fset.Position(vsp.Pos())
+		if pkgVars[id.Name] == fmt.Sprintf("%s@%s", id.Name, filepath.Base(p.Filename)) && isFileScope[vsp] {
+			return sid, true
+		}
+	}
+	return "", false
+}
+
+var isFileScope = map[*ast.ValueSpec]bool{}
+
 type fileCtx struct {
-	file     *ast.File
-	pkgNames map[string]string // local name -> import path, for the redirected packages
-	usedShim bool
-	shared   map[*ast.Object]string // shared-mutable locals -> id
-	writes   map[*ast.Ident]bool    // identifiers in write position
-	addrs    map[*ast.Ident]bool    // identifiers under unary &
-	decls    map[*ast.Ident]bool    // declaring occurrences (never rewritten)
+	file      *ast.File
+	pkgNames  map[string]string // local name -> import path, for the redirected packages
+	usedShim  bool
+	shared    map[*ast.Object]string // shared-mutable locals -> id
+	writes    map[*ast.Ident]bool    // identifiers in write position
+	addrs     map[*ast.Ident]bool    // identifiers under unary &
+	decls     map[*ast.Ident]bool    // declaring occurrences (never rewritten)
+	pkgWrites map[*ast.Ident]bool    // occurrences of package-level variables in write position
+	skip      map[*ast.Ident]bool    // identifiers that are not variable references (field names, declarations)
 }
 
 // analyse finds, per function containing a `go` closure, the closure's free variables declared in
 // the enclosing function that are written after their declaration.
+// root returns the identifier at the bottom of a selector/index chain (x in x.f[i].g).
+func root(e ast.Expr) *ast.Ident {
+	for {
+		switch v := e.(type) {
+		case *ast.Ident:
+			return v
+		case *ast.SelectorExpr:
+			e = v.X
+		case *ast.IndexExpr:
+			e = v.X
+		case *ast.ParenExpr:
+			e = v.X
+		default:
+			return nil
+		}
+	}
+}
+
 func (c *fileCtx) analyse() {
 	c.shared, c.writes, c.addrs, c.decls = map[*ast.Object]string{}, map[*ast.Ident]bool{}, map[*ast.Ident]bool{}, map[*ast.Ident]bool{}
+	c.pkgWrites = map[*ast.Ident]bool{}
+	c.skip = map[*ast.Ident]bool{}
+	// package-level variables: writes are assignments whose left-hand side is rooted at the variable
+	ast.Inspect(c.file, func(n ast.Node) bool {
+		switch s := n.(type) {
+		case *ast.GenDecl:
+			if s.Tok == token.VAR {
+				for _, sp := range s.Specs {
+					for _, id := range sp.(*ast.ValueSpec).Names {
+						c.skip[id] = true
+					}
+				}
+			}
+		case *ast.AssignStmt:
+			if s.Tok != token.DEFINE {
+				for _, l := range s.Lhs {
+					if id := root(l); id != nil {
+						if _, ok := pkgVarOf(id); ok {
+							c.pkgWrites[id] = true
+						}
+					}
+				}
+			}
+		case *ast.IncDecStmt:
+			if id := root(s.X); id != nil {
+				if _, ok := pkgVarOf(id); ok {
+					c.pkgWrites[id] = true
+				}
+			}
+		case *ast.UnaryExpr:
+			if s.Op == token.AND {
+				if id := root(s.X); id != nil {
+					if _, ok := pkgVarOf(id); ok {
+						c.pkgWrites[id] = true // address taken: treated as a write
+					}
+				}
+			}
+		case *ast.SelectorExpr:
+			c.skip[s.Sel] = true
+		case *ast.KeyValueExpr:
+			if id, ok := s.Key.(*ast.Ident); ok {
+				c.skip[id] = true // struct literal field name (harmlessly also map keys that are identifiers)
+			}
+		}
+		return true
+	})
 
 	for _, d := range c.file.Decls {
 		fd, ok := d.(*ast.FuncDecl)
@@ -383,6 +498,18 @@ func (c *fileCtx) rewrite() {
 			// vs.Run turns that into a machinery error.
 
 		case *ast.Ident:
+			if !c.skip[x] && !c.decls[x] {
+				if sid, ok := pkgVarOf(x); ok {
+					c.usedShim = true
+					p := fset.Position(x.Pos())
+					at := fmt.Sprintf("%s:%d", filepath.Base(p.Filename), p.Line)
+					addr := &ast.UnaryExpr{Op: token.AND, X: &ast.Ident{Name: x.Name, NamePos: x.NamePos}}
+					if c.pkgWrites[x] {
+						return &ast.ParenExpr{X: &ast.StarExpr{X: call("W", addr, strLit(sid+" written at "+at))}}
+					}
+					return &ast.ParenExpr{X: &ast.StarExpr{X: call("R", addr, strLit(sid+" read at "+at))}}
+				}
+			}
 			if x.Obj == nil || c.decls[x] {
 				return n
 			}
@@ -555,6 +682,23 @@ func main() {
 	ctx.GOOS, ctx.GOARCH = "linux", "amd64"
 	ctx.BuildTags = []string{"verif"}
 	report := []string{}
+	// first pass: package-level variables of the whole package
+	{
+		var all []*ast.File
+		for _, ent := range entries {
+			name := ent.Name()
+			if ent.IsDir() || !strings.HasSuffix(name, ".go") || strings.HasSuffix(name, "_test.go") {
+				continue
+			}
+			if ok, err := ctx.MatchFile(dir, name); err != nil || !ok {
+				continue
+			}
+			if f, err := parser.ParseFile(fset, filepath.Join(dir, name), nil, parser.SkipObjectResolution); err == nil {
+				all = append(all, f)
+			}
+		}
+		collectPkgVars(all)
+	}
 	for _, ent := range entries {
 		name := ent.Name()
 		if ent.IsDir() || !strings.HasSuffix(name, ".go") || strings.HasSuffix(name, "_test.go") {
@@ -567,6 +711,13 @@ func main() {
 		f, err := parser.ParseFile(fset, path, nil, parser.ParseComments)
 		if err != nil {
 			fatal("parse %s: %v", path, err)
+		}
+		for _, d := range f.Decls {
+			if gd, ok := d.(*ast.GenDecl); ok && gd.Tok == token.VAR {
+				for _, sp := range gd.Specs {
+					isFileScope[sp.(*ast.ValueSpec)] = true
+				}
+			}
 		}
 		c := &fileCtx{file: f, pkgNames: map[string]string{}}
 		for _, is := range f.Imports {
